@@ -1034,6 +1034,51 @@ func (fc *freshCtx) fresh1(v ssa.Value) (bool, string) {
 				return false, "the stored slice " + typeShort(derefType(fa.X.Type())) + "." + f.Name() + " (loaded in " + c.FuncKey(x.Parent()) + ")"
 			}
 		}
+		// a local of the enclosing function captured by this closure: what is stored in its cell
+		// (there, and by the closures sharing it)
+		if fv, ok := x.X.(*ssa.FreeVar); ok {
+			cf := fv.Parent()
+			if par := cf.Parent(); par != nil {
+				idx := -1
+				for i, f := range cf.FreeVars {
+					if f == fv {
+						idx = i
+					}
+				}
+				found, allOK, whyNot := false, true, ""
+				allInstrs(par, func(in ssa.Instruction) {
+					mc, isMC := in.(*ssa.MakeClosure)
+					if !isMC || mc.Fn != ssa.Value(cf) || idx < 0 || idx >= len(mc.Bindings) {
+						return
+					}
+					cell, isAlloc := mc.Bindings[idx].(*ssa.Alloc)
+					if !isAlloc {
+						allOK = false
+						return
+					}
+					found = true
+					for _, s := range cellSources(cell) {
+						if ok, why := fc.fresh(s); !ok {
+							allOK, whyNot = false, why
+						}
+					}
+				})
+				// stores made by the closure itself
+				allInstrs(cf, func(in ssa.Instruction) {
+					if st, isSt := in.(*ssa.Store); isSt && st.Addr == ssa.Value(fv) {
+						if ok, why := fc.fresh(st.Val); !ok {
+							allOK, whyNot = false, why
+						}
+					}
+				})
+				if found && allOK {
+					return true, ""
+				}
+				if whyNot != "" {
+					return false, whyNot
+				}
+			}
+		}
 		return false, "a slice loaded from memory at " + c.Pos(c.InstrPos(x))
 	}
 	return false, fmt.Sprintf("%T at %s", v, c.Pos(v.Pos()))
